@@ -646,9 +646,14 @@ def lb_observe(w, accs, key, base):
     # own criterion for item-granular ("relative") scrolling holds for the size ScrollBar passes to it, and how
     # many rows the current first item has (a position inside the first item has 0 < p < first_item_rows)
     first_item_rows = len(canvas_rows(type(w.walker[0]).render(w.walker[0], (cv,), False)))
+    # the grouping class is refined for the same reason: only PER_CLASS failures of one class are kept, so the
+    # known item-granular case (view starts inside a multi-row first item) must not crowd out any other
+    # thumb-top failure of the relative-scroll branch
+    inside_first = len(w.walker) > 3 * h and a == 0 and 0 < p < first_item_rows
     accs["C20/listbox-thumb-top"].case(
         key, (a == 0) == (p == 0),
         lambda: det | {"parts": parts, "first_visible_row": p, "relative_scroll": len(w.walker) > 3 * h, "first_item_rows": first_item_rows,
+                       "class": det["class"] + (", thumb at top while the view starts inside the first item" if inside_first else ""),
                        "why": f"trough above thumb={a} rows while the view starts at content row {p}"}, sample=sample,
     )
     tab = w.tops.setdefault((w.version, c, h), {})
